@@ -212,7 +212,8 @@ class FixtureSuite(unittest.TestSuite):
             self._fixture.cleanUp()
 
     def sort_tests(self):
-        self._tests = sorted_tests(self, True)
+        # _tests stays a list: addTest and filter_by_ids rely on that.
+        self._tests = list(sorted_tests(self, True))
 
 
 def _flatten_tests(suite_or_case, unpack_outer=False):
